@@ -465,6 +465,15 @@ class FileOutput:
         self.fd = None
 
 
+def _pad_angle(text):
+    # keep the brackets of a nested set or map apart from the enclosing ones
+    if text.startswith("<"):
+        text = " " + text
+    if text.endswith(">"):
+        text = text + " "
+    return text
+
+
 class Value:
     def __init__(self):
         self.info = ""
@@ -1086,11 +1095,13 @@ class ValueMap(Value):
     def __repr__(self):
         return (
             "<<<"
-            + ", ".join(
-                [
-                    f"{key} => {self.value[key]}"
-                    for key in self.getSortedKeys()
-                ]
+            + _pad_angle(
+                ", ".join(
+                    [
+                        f"{key} => {self.value[key]}"
+                        for key in self.getSortedKeys()
+                    ]
+                )
             )
             + ">>>"
         )
@@ -1436,7 +1447,9 @@ class ValueSet(Value):
     def __repr__(self):
         return (
             "<<"
-            + ", ".join([str(item) for item in self.getSortedItems()])
+            + _pad_angle(
+                ", ".join([str(item) for item in self.getSortedItems()])
+            )
             + ">>"
         )
 
